@@ -511,15 +511,27 @@ theorem rafter_none {c : Nat} {r : Text} (hr : ∀ x ∈ r, x ≠ c) : rafter c 
 
 /-! ### decimal integers -/
 
+/-- facts about the regenerated `int()` tables: ASCII digits have their value, none of them is stripped -/
+theorem int_tables_ascii :
+    (∀ d, d < 10 → digitVal? (48 + d) = some d) ∧ (∀ d, d < 10 → isPySpace (48 + d) = false) := by
+  decide +kernel
+
+theorem digitVal_of_isDigit {c : Nat} (h : isDigit c = true) : digitVal? c = some (c - 48) := by
+  simp only [isDigit, Bool.and_eq_true, decide_eq_true_eq] at h
+  have := int_tables_ascii.1 (c - 48) (by omega)
+  rwa [show 48 + (c - 48) = c by omega] at this
+
+theorem isPyDigit_of_isDigit {c : Nat} (h : isDigit c = true) : isPyDigit c = true := by
+  simp [isPyDigit, digitVal_of_isDigit h]
+
 theorem pyNatGo_snoc (ds : Text) (hd : ∀ c ∈ ds, isDigit c = true) (d : Nat) (hdd : d < 10) (acc : Nat) :
     pyNatGo (ds ++ [48 + d]) acc = (pyNatGo ds acc).map (fun v => v * 10 + d) := by
   induction ds generalizing acc with
   | nil =>
-    have : isDigit (48 + d) = true := by simp [isDigit]; omega
-    simp [pyNatGo, this]
+    simp [pyNatGo, int_tables_ascii.1 d hdd]
   | cons c ds ih =>
     have hc : isDigit c = true := hd c (by simp)
-    simp only [List.cons_append, pyNatGo, hc, if_true]
+    simp only [List.cons_append, pyNatGo, digitVal_of_isDigit hc]
     exact ih (fun x hx => hd x (by simp [hx])) _
 
 theorem showNatF_spec (f : Nat) : ∀ n, n < f →
@@ -533,8 +545,7 @@ theorem showNatF_spec (f : Nat) : ∀ n, n < f →
     · rename_i h10
       refine ⟨?_, by simp, ?_⟩
       · intro c hc; simp at hc; subst hc; simp [isDigit]; omega
-      · have : isDigit (48 + n) = true := by simp [isDigit]; omega
-        simp [pyNatGo, this]
+      · simp [pyNatGo, int_tables_ascii.1 n h10]
     · rename_i h10
       have hlt : n / 10 < f := by omega
       obtain ⟨h1, h2, h3⟩ := ih (n / 10) hlt
@@ -557,12 +568,13 @@ theorem pyNat_showNat (n : Nat) : pyNat? (showNat n) = some n := by
   | nil => exact absurd hs h.2.1
   | cons c rest =>
     rw [hs] at h
-    simp only [pyNat?, h.1 c (by simp), if_true]
+    simp only [pyNat?, isPyDigit_of_isDigit (h.1 c (by simp)), if_true]
     exact h.2.2
 
 theorem isDigit_not_space {c : Nat} (h : isDigit c = true) : isPySpace c = false := by
-  simp only [isDigit, isPySpace, Bool.and_eq_true, decide_eq_true_eq] at *
-  simp; omega
+  simp only [isDigit, Bool.and_eq_true, decide_eq_true_eq] at h
+  have := int_tables_ascii.2 (c - 48) (by omega)
+  rwa [show 48 + (c - 48) = c by omega] at this
 
 /-- `int(str(n)) == n` for a natural number -/
 theorem pyInt_showNat (n : Nat) : pyInt? (showNat n) = some (Int.ofNat n) := by
